@@ -202,6 +202,7 @@ func c11Located(r *lp.Run) {
 		{"minLength greater than maxLength", "type: string\n            description: d\n            minLength: 10\n            maxLength: 5", "minLength: 10"},
 		{"minItems greater than maxItems", "type: array\n            items: {type: string}\n            description: d\n            maxItems: 1\n            minItems: 3", "Items: "},
 		{"enum value of the wrong type", "type: integer\n            enum:\n              - 1\n              - 2\n              - \"three\"", "\"three\""},
+		{"K25 enum value of the wrong type after a null", "type: integer\n            nullable: true\n            enum:\n              - null\n              - 1\n              - 2\n              - \"three\"", "\"three\""},
 	} {
 		doc := "openapi: 3.0.3\ninfo:\n  title: t\n  version: \"1\"\npaths:\n  /x:\n    get:\n      operationId: x\n      parameters:\n        - name: q\n          in: query\n          schema:\n            " + q.schema + "\n      responses:\n        \"200\":\n          description: ok\n"
 		want := lineOf(doc, q.marker)
@@ -258,6 +259,10 @@ func c11Located(r *lp.Run) {
 			if (s.wantFile == "" || base == s.wantFile) && (s.wantLine == 0 || line == s.wantLine) {
 				hitWanted = true
 			}
+		}
+		if !hitWanted && strings.HasPrefix(s.name, "K25 ") {
+			r.Known(lp.PropFail{Property: "C11", Class: "K25", What: "an enum value of the wrong type is located one element early for every null before it", Input: in, Observed: truncN(errText, 300), Expected: fmt.Sprintf("a position %s:%d", s.wantFile, s.wantLine)})
+			continue
 		}
 		if !hitWanted {
 			want := s.wantFile
